@@ -143,6 +143,19 @@ class JumpToStageHandler(StabilizeHandler[JumpToStage]):
             # (retrieve_stage only returns partial execution with one stage)
             execution = self.repository.retrieve(message.execution_id)
 
+            # A cancel that was processed while this jump sat in the queue has
+            # already fanned out CancelStage to every unfinished stage. Jumping
+            # now would re-arm the target, its downstream stages and the
+            # (possibly already CANCELED) source to NOT_STARTED after that
+            # fan-out, and nothing would cancel them again.
+            if execution.is_canceled:
+                logger.info(
+                    "Ignoring jump to %s: execution %s is canceled",
+                    message.target_stage_ref_id,
+                    message.execution_id,
+                )
+                return
+
             # Get source stage from full execution for consistency
             source_stage = next(
                 (s for s in execution.stages if s.id == message.stage_id),
